@@ -57,12 +57,19 @@ Proof. vm_compute. reflexivity. Qed.
 Example ex_rst_then_srvclose_safe : pair_lands CRst CSrvClose = false /\ pair_lands CSrvClose CRst = true.
 Proof. vm_compute. split; reflexivity. Qed.
 
-(* the KeyError window, step by step *)
-Example ex_gc_keyerror_window :
-  let s := run_ops (removelast gc_keyerror_ops) init in
-  exists t, find_task 0 8 (tasks s) = Some t /\ ph t = Finished /\ registered t = true /\
-            cb_pending t = true /\ in_tasks t = false /\ h2reset t = false.
-Proof. vm_compute. eexists. repeat split; reflexivity. Qed.
+(* the window of the repaired D91, step by step: the reset finds the stream registered but the task
+   collected; nothing happens to it, and the done-callback then releases the stream *)
+Example ex_gc_window :
+  let s0 := run_ops (removelast (removelast gc_window_ops)) init in
+  let s1 := run_ops (removelast gc_window_ops) init in
+  let s2 := run_ops gc_window_ops init in
+  (exists t, find_task 0 8 (tasks s0) = Some t /\ ph t = Finished /\ registered t = true /\
+             cb_pending t = true /\ in_tasks t = false /\ h2reset t = false) /\
+  (exists t, find_task 0 8 (tasks s1) = Some t /\ ph t = Finished /\ registered t = true /\
+             cancel_req t = false /\ in_cancelled t = false) /\
+  conns s1 = conns s0 /\
+  (exists t, find_task 0 8 (tasks s2) = Some t /\ registered t = false /\ nrel t = 1 /\ ncancel t = 0).
+Proof. vm_compute. repeat split; try (eexists; repeat split; reflexivity). Qed.
 
 (* graceful_exit *)
 Example ex_graceful :
